@@ -53,7 +53,7 @@ REQUIRED_COUNTERS = {
                  "float32_cases": 300},
 }
 
-NS = [1, 2, 3, 5, 8, 16, 33, 64, 100, 150, 250]
+NS = [1, 2, 3, 5, 8, 16, 33, 64, 100, 101, 150, 151, 250, 255]      # incl. odd n above 100 (node at the centre)
 FORMS = ["num", "t0", "t1", "num_t0", "t0_num", "num_t1", "t1_num", "t0_t1"]
 CTOL = 5000.0
 INF = float("inf")
